@@ -9,7 +9,7 @@ use crate::rng::Rng;
 use crate::taylor::Func;
 use crate::track::Tr;
 
-use num_traits::{FloatConst, Inv, Signed};
+use num_traits::FloatConst;
 #[allow(unused_imports)]
 use num_dual::DualNum as _;
 use serde_json::{json, Value};
@@ -435,7 +435,7 @@ fn ok_un(f: Func, v: f64, f32: bool) -> bool {
             l.abs() <= 12.0 && (n >= 0 || a >= 0.05) && (n <= 2 || a >= 1e-3)
         }
         Func::Powf(p) => v >= 0.05 && (p * v.ln()).abs() <= 12.0,
-        Func::SphJ0 | Func::SphJ1 | Func::SphJ2 => (2.0..=30.0).contains(&a),
+        Func::SphJ0 | Func::SphJ1 | Func::SphJ2 => a <= 30.0,
         _ => false,
     }
 }
